@@ -90,7 +90,7 @@ func (fr *Frame) call(in ssa.Value, cc *ssa.CallCommon, st *State) Val {
 				panic(vcErr("invoke on %T", recv))
 			}
 			// statically known dynamic type: call the concrete method
-			if sp, ok := iv.Conc.(StructPtr); ok && sp.Nm != nil {
+			if sp, ok := iv.Conc.(StructPtr); ok && sp.Nm != nil && !(c.fc != nil && c.fc.NDIfaceOnly) {
 				if m := c.prog.LookupMethod(types.NewPointer(sp.Nm), cc.Method.Pkg(), cc.Method.Name()); m != nil {
 					return wrap(fr.staticCall(m, nil, append([]Val{sp}, args...), st, pos))
 				}
@@ -270,6 +270,19 @@ func (fr *Frame) staticCall(callee *ssa.Function, free []Val, args []Val, st *St
 		}
 		return c.inline(FuncV{Fn: callee, Free: free, Sig: callee.Signature}, args, st, pos)
 	}
+	// C08: the HDF5 library is not thread safe: every call into it needs the
+	// package lock (ghost.hdf5lock: 0 free, 1 shared, 2 exclusive); calls that
+	// create or write need it exclusively
+	if pkgPath == "gonum.org/v1/hdf5" && c.specMode == 0 {
+		lock := c.ghostCell(st, "hdf5lock")
+		// calls that create or modify objects in a file
+		writer := name == "CreateFile" || name == "CreateGroup" || strings.HasPrefix(name, "CreateDataset") || name == "Write" || name == "WriteSubset"
+		if writer {
+			c.oblige(st, "lock", "C08.lock-held-exclusively", []string{"C08"}, eq(lock, intLit(2)), pos, "call of hdf5."+name+" (creates or writes) while holding the package lock exclusively")
+		} else {
+			c.oblige(st, "lock", "C08.lock-held", []string{"C08"}, app(SBool, ">=", lock, intLit(1)), pos, "call of hdf5."+name+" while holding the package lock")
+		}
+	}
 	// external: havoc the results and every struct object passed by pointer
 	for _, a := range args {
 		var sp StructPtr
@@ -291,6 +304,16 @@ func (fr *Frame) staticCall(callee *ssa.Function, free []Val, args []Val, st *St
 	rs := callee.Signature.Results()
 	for i := 0; i < rs.Len(); i++ {
 		out = append(out, c.freshVal(st, "ext_"+name, rs.At(i).Type()))
+	}
+	if pkgPath == "gonum.org/v1/hdf5" && len(out) >= 2 {
+		// assumed library contract (A-HDF5): a call that reports no error returns non-nil handles
+		if ev, ok := out[len(out)-1].(ErrV); ok {
+			for _, o := range out[:len(out)-1] {
+				if sp, ok := o.(StructPtr); ok {
+					c.assume(st.reach, implies(ev.Nil, app(SBool, ">", sp.Ref, intLit(0))))
+				}
+			}
+		}
 	}
 	return out
 }
@@ -521,6 +544,11 @@ func (fr *Frame) havocTarget(env *Env, st *State, target string) {
 		for _, name := range sortedKeys(c.heapSorts) {
 			c.setHeap(st, name, c.fresh("Hc_"+name, c.heapSorts[name]), nil)
 		}
+		return
+	}
+	if strings.HasPrefix(target, "ghost.") {
+		c.ghostCell(st, strings.TrimPrefix(target, "ghost."))
+		c.setCell(st, target, c.fresh("ghost_"+strings.TrimPrefix(target, "ghost."), SInt))
 		return
 	}
 	if strings.HasSuffix(target, "[*]") {
